@@ -386,7 +386,7 @@ pub struct Lists {
 }
 impl Lists {
     fn new(t: Tier) -> Lists {
-        let maxlen = t.pick(4u32, 5u32);
+        let maxlen = t.pick(4u32, 6u32);
         let items = ITEMS.to_vec();
         let mut offsets = vec![0u64];
         for n in 0..=maxlen {
@@ -540,7 +540,7 @@ pub fn run(t: Tier) -> i32 {
     let l = Lists::new(t);
     rep.rule = format!(
         "paths: field paths r, r.a, .. r.a.b.c.d in 4 spellings (dots, ['k'] indices, alternating, variable keys) x every binding configuration (the chain stops at any level with the root unbound / a field missing, null, an int, a string, a list or an empty map; or reaches the leaf, which is null, a value, or a map) x has() in 9 contexts (top level, map and filter bodies, ?:, nested has, !, &&, all, nested exists) and through a loop variable, and coalesce(e, 'dflt') in 5 contexts and through a loop variable; expected from the two-class lattice absent/other; for a field looked up on a non-map (class not fixed by the statement) the implementation's own top-level has() answer (false or failure, never true) must be reproduced in every context and by coalesce. coalesce-lists: every argument list of length 0..{} over 14 items (present, null, unbound, missing field/index, null field, foldable and run-time division by zero, type error, bad index, call-recording present/null) in 4 contexts: result and the exact set of evaluated call-recording arguments. names: bare identifiers spelled like built-in functions/macros (size, max, filter, map, has, ...) unbound / bound / bound to null, in all has and coalesce contexts. Non-trivial = every enumerated configuration; distinct by index",
-        t.pick(4, 5)
+        t.pick(4, 6)
     );
     rep.run_family(Family::new("paths", 5 * 6 * TERMS.len() as u64 * PFORMS.len() as u64, run_path));
     rep.run_family(Family::new("coalesce-lists", l.size(), |i, a| l.run(i, a)));
